@@ -26,7 +26,7 @@ def holders_case(draw, broker):
         for _ in range(k):
             nmsg += 1
             ops.append({"op": "enq", "q": "qa", "topic": "t0", "prio": draw(st.sampled_from([5, 5, 0, 9])), "delay": None,
-                        "payload": f"p{nmsg}", "client": "p0", "timeout": draw(st.sampled_from([600, 600, 2, 4, 86400, 2 * 86400, 86400 + 3]))})
+                        "payload": f"p{nmsg}", "client": "p0", "timeout": draw(st.sampled_from([600, 2, 4, 2, 4, 86400, 2 * 86400, 86400 + 3]))})
 
     burst(draw(st.integers(1, 6)))
     for i in range(ncons):
@@ -53,6 +53,9 @@ def holders_case(draw, broker):
         elif r < 18 and broker != "mem":
             ops.append({"op": "kill", "c": draw(idx)})
         elif r < 19 and broker == "redis":
+            if draw(st.booleans()):
+                # shortly before / after the 2 s and 4 s execution timeouts of what was taken a moment ago
+                ops.append({"op": "advance", "dt": draw(st.sampled_from([1.6, 1.9, 2.05, 3.9, 4.05]))})
             ops.append({"op": "maintenance"})
         else:
             ops.append({"op": "consume", "c": draw(idx), "patience": 0.3})
